@@ -403,7 +403,7 @@ impl Ctx {
                 .map(|w| {
                     let mk = &mk;
                     let test = &test;
-                    sc.spawn(move || self.worker_proptest(name, w as u64, per, mk, test))
+                    std::thread::Builder::new().stack_size(512 << 20).spawn_scoped(sc, move || self.worker_proptest(name, w as u64, per, mk, test)).expect("spawn worker")
                 })
                 .collect();
             hs.into_iter().map(|h| h.join().expect("worker panicked outside a case")).collect()
@@ -521,7 +521,7 @@ impl Ctx {
                 .map(|_| {
                     let test = &test;
                     let next = &next;
-                    sc.spawn(move || {
+                    std::thread::Builder::new().stack_size(512 << 20).spawn_scoped(sc, move || {
                         let mut local = Local::new();
                         let mut found = None;
                         'outer: loop {
@@ -547,6 +547,7 @@ impl Ctx {
                         }
                         (local, found)
                     })
+                    .expect("spawn worker")
                 })
                 .collect();
             hs.into_iter().map(|h| h.join().expect("worker died")).collect()
